@@ -36,6 +36,68 @@ structure G1 (s : St) : Prop where
   clpFrame : ∀ fr, s.frame = some fr → (runR C03.clpStep {} s.out).p.cur = some fr.last
   clpProc : ∀ g, s.proc = some g → (runR C03.clpStep {} s.out).p.cur = some g.last
 
+/-- `_request_d` as the single-fetch monitor sees it: the outstanding, uncancelled request -/
+def activeReq : ReqD → Option Nat
+  | .pending k _ false => some k
+  | _ => none
+
+def retryPending : TRef → Bool
+  | .pending _ => true
+  | _ => false
+
+/-- the previous back-off delay of the current run of failures, after `k` of them -/
+def prevOf (init maxD : Rat) (k : Nat) : Option Rat :=
+  match k with
+  | 0 => none
+  | j + 1 => some (C14.delayAt init maxD j)
+
+theorem ackJ_congr (m m' : C03.AckSt) (lc : Option Int) (h1 : m'.cur = m.cur) (h2 : m'.reqs = m.reqs) :
+    C03.ackJustified m' lc = C03.ackJustified m lc := by
+  unfold C03.ackJustified; rw [h1, h2]
+
+theorem ackJ_cons (m m' : C03.AckSt) (x : Nat × Int) (lc : Option Int) (h1 : m'.cur = m.cur) (h2 : m'.reqs = x :: m.reqs)
+    (h : C03.ackJustified m lc = true) : C03.ackJustified m' lc = true := by
+  unfold C03.ackJustified at *
+  rw [h1, h2]
+  split <;> simp_all
+
+theorem ackJ_commitOk (m : C03.AckSt) (k : Nat) (v : Int) (h1 : m.cur = some (.commitOk k)) (h2 : (k, v) ∈ m.reqs) :
+    C03.ackJustified m (some v) = true := by
+  unfold C03.ackJustified; rw [h1]; simpa using h2
+
+theorem ackJ_offsetFetch (m : C03.AckSt) (k : Nat) (off : Int) (h1 : m.cur = some (.offsetFetchOk k off))
+    (h2 : off ≠ offsetNotCommitted) : C03.ackJustified m (some off) = true := by
+  unfold C03.ackJustified; rw [h1]; simp [h2]
+
+/-- single outstanding fetch / single scheduled refetch (`C02.sfStep`) -/
+structure Gsf (s : St) : Prop where
+  sfOk : (runR C02.sfStep {} s.out).bad = false
+  sfReq : (runR C02.sfStep {} s.out).req = activeReq s.requestD
+  sfTimer : (runR C02.sfStep {} s.out).timer = retryPending s.retryCall
+  retryRun : retryPending s.retryCall = true → s.startD ≠ .none
+
+/-- resume position (`C03.resStep`) -/
+structure Gres (s : St) : Prop where
+  resOk : (runR C03.resStep {} s.out).bad = false
+  resExp : (runR C03.resStep {} s.out).expect.isSome = true → s.startD = .none
+
+/-- the committed offset is acknowledged (`C03.ackStep`) -/
+structure Gack (s : St) : Prop where
+  ackOk : (runR C03.ackStep {} s.out).bad = false
+  ackMid : s.lastCommitted = (runR C03.ackStep {} s.out).lc ∨
+    C03.ackJustified (runR C03.ackStep {} s.out) s.lastCommitted = true
+  ackReqs : ∀ r, s.commitReq = some r → (r.k, r.off) ∈ (runR C03.ackStep {} s.out).reqs
+
+/-- retry delays (`C14.dlStep`) -/
+structure Gdl (cfg : Cfg) (s : St) : Prop where
+  init0 : 0 ≤ cfg.retryInit
+  max0 : 0 ≤ cfg.retryMax
+  dlOk : (runR (C14.dlStep cfg.retryInit cfg.retryMax) {} s.out).bad = false
+  dlErr : (runR (C14.dlStep cfg.retryInit cfg.retryMax) {} s.out).inErr = false
+  dlEq : s.retryDelay = C14.delayAt cfg.retryInit cfg.retryMax (runR (C14.dlStep cfg.retryInit cfg.retryMax) {} s.out).k
+  dlPrev : (runR (C14.dlStep cfg.retryInit cfg.retryMax) {} s.out).prev =
+    prevOf cfg.retryInit cfg.retryMax (runR (C14.dlStep cfg.retryInit cfg.retryMax) {} s.out).k
+
 /-- A handler that may run at any point (also while the processor is executing). -/
 def Pres1 (h : St → St) : Prop := ∀ s, G1 s → G1 (h s) ∧ (h s).frame = s.frame
 
